@@ -82,6 +82,11 @@ def run(chk: Check):
                 files={"MCStreams.tla": mc}, label="design: complete state graph, tiny+truncated configurations",
                 timeout_s=3000, coverage=False, heap="8g")
     chk.exhaustive = True
+    # 1b. the cursor arithmetic for ARBITRARY window sizes and arguments (unbounded integers): inductive invariant with Apalache
+    apa = tlc.apalache_inductive("Cursor")
+    chk.extra["apalache_cursor_inductive_invariant"] = apa
+    if apa.get("available") and not (apa.get("base") and apa.get("step")):
+        raise tlc.TlcError(f"Cursor.tla: the inductive invariant does not hold: {apa}")
     # 2. replay: exhaustive depth 2 on the top view
     res = chk.run_tlc("MCStreams", streams.streams_cfg(depth=2, keep=True, opviews="top", emit=True,
                                                        invariants=streams.ALL_INVARIANTS + ["Emit"]),
